@@ -34,11 +34,14 @@ pub struct OracleView {
     pub k: Q,
     /// configured max confidence as a fraction of price
     pub max_conf_frac: Q,
+    /// absolute widening of the price enclosures (0 for ordinary feeds; for venue banks the derived bound of the
+    /// truncations the program performs while applying the venue exchange rate, see `venue_view`)
+    pub extra_slack: Q,
 }
 
 impl OracleView {
     fn unusable(why: &'static str) -> OracleView {
-        OracleView { loaded: false, why, spot: q_zero(), spot_sigma: q_zero(), ema: q_zero(), ema_sigma: q_zero(), k: q_zero(), max_conf_frac: q_zero() }
+        OracleView { loaded: false, why, spot: q_zero(), spot_sigma: q_zero(), ema: q_zero(), ema_sigma: q_zero(), k: q_zero(), max_conf_frac: q_zero(), extra_slack: q_zero() }
     }
     fn pair(&self, kind: PriceKind) -> (&Q, &Q) {
         match kind {
@@ -69,7 +72,7 @@ impl OracleView {
         }
         let b = self.band(kind)?;
         let (p, _) = self.pair(kind);
-        Some(Iv::point(p - b).widen(&self.band_slack(kind)))
+        Some(Iv::point(p - b).widen(&(self.band_slack(kind) + &self.extra_slack)))
     }
     pub fn high(&self, kind: PriceKind) -> Option<Iv> {
         if !self.loaded {
@@ -77,14 +80,14 @@ impl OracleView {
         }
         let b = self.band(kind)?;
         let (p, _) = self.pair(kind);
-        Some(Iv::point(p + b).widen(&self.band_slack(kind)))
+        Some(Iv::point(p + b).widen(&(self.band_slack(kind) + &self.extra_slack)))
     }
     pub fn unbiased(&self, kind: PriceKind) -> Option<Iv> {
         if !self.loaded {
             return None;
         }
         let (p, _) = self.pair(kind);
-        Some(Iv::point(p.clone()).widen(&(q_int(2) * ulp())))
+        Some(Iv::point(p.clone()).widen(&(q_int(2) * ulp() + &self.extra_slack)))
     }
 }
 
@@ -107,7 +110,7 @@ pub fn oracle_view(vm: &Vm, bank: &Bank, now: i64) -> OracleView {
     match bank.config.oracle_setup {
         OracleSetup::Fixed => {
             let p = q_w(bank.config.fixed_price);
-            OracleView { loaded: true, why: "fixed", spot: p.clone(), spot_sigma: q_zero(), ema: p, ema_sigma: q_zero(), k: q_zero(), max_conf_frac: q_one() }
+            OracleView { loaded: true, why: "fixed", spot: p.clone(), spot_sigma: q_zero(), ema: p, ema_sigma: q_zero(), k: q_zero(), max_conf_frac: q_one(), extra_slack: q_zero() }
         }
         OracleSetup::PythPushOracle => {
             use anchor_lang::{AnchorDeserialize, Discriminator};
@@ -139,6 +142,7 @@ pub fn oracle_view(vm: &Vm, bank: &Bank, now: i64) -> OracleView {
                 ema_sigma: q_int(m.ema_conf) * &sc,
                 k: q_ratio(212, 100),
                 max_conf_frac: frac(bank.config.oracle_max_confidence),
+                extra_slack: q_zero(),
             }
         }
         OracleSetup::SwitchboardPull => {
@@ -160,7 +164,7 @@ pub fn oracle_view(vm: &Vm, bank: &Bank, now: i64) -> OracleView {
             let sc = Q::one() / pow10(18);
             let p = q_int(feed.result.value) * &sc;
             let s = q_int(feed.result.std_dev) * &sc;
-            OracleView { loaded: true, why: "swb", spot: p.clone(), spot_sigma: s.clone(), ema: p, ema_sigma: s, k: q_ratio(196, 100), max_conf_frac: frac(bank.config.oracle_max_confidence) }
+            OracleView { loaded: true, why: "swb", spot: p.clone(), spot_sigma: s.clone(), ema: p, ema_sigma: s, k: q_ratio(196, 100), max_conf_frac: frac(bank.config.oracle_max_confidence), extra_slack: q_zero() }
         }
         OracleSetup::StakedWithPythPush => {
             // the group's SOL feed (Pyth push) scaled by the LST rate of the bank's single-validator pool:
@@ -210,10 +214,178 @@ pub fn oracle_view(vm: &Vm, bank: &Bank, now: i64) -> OracleView {
                 ema_sigma: q_int(m.ema_conf) * &sc,
                 k: q_ratio(212, 100),
                 max_conf_frac: frac(bank.config.oracle_max_confidence),
+                extra_slack: q_zero(),
             }
         }
+        OracleSetup::KaminoPythPush | OracleSetup::SolendPythPull | OracleSetup::DriftPythPull | OracleSetup::KaminoSwitchboardPull | OracleSetup::SolendSwitchboardPull | OracleSetup::DriftSwitchboardPull => venue_view(vm, bank, now, frac(bank.config.oracle_max_confidence)),
         _ => OracleView::unusable("unsupported-kind"),
     }
+}
+
+/// What the reference knows about the venue side of a venue bank: the EXACT exchange rate applied to the feed
+/// (`rate`, a rational from the raw venue account; Kamino / Solend: native underlying units per collateral unit,
+/// Drift: cumulative_deposit_interest / 10^10, the factor between a whole 9-decimal scaled-balance unit and a whole
+/// token) and an enclosure `[rho_lo, rho_hi]` of the rate the program itself computes in fixed point.
+#[derive(Clone, Debug)]
+pub struct VenueRate {
+    pub rate: Q,
+    pub rho_lo: Q,
+    pub rho_hi: Q,
+}
+
+/// Kamino / Solend: enclosure of the program's I80F48 ratio. With L = exact total liquidity (native units, a
+/// rational: available + borrowed - fees from the venue's own 2^-60 / 10^-18 fixed point), S = collateral supply
+/// (integer > 0), T = 10^decimals, u = 2^-48 and fl(x) = largest multiple of u <= x, the program computes
+///   Lr  = available + fl(borrowed) - sum_i fl(fee_i)        =>  L - u < Lr < L + n_fees * u
+///   Ls  = fl(Lr / T)                                        =>  Lr/T - u < Ls <= Lr/T
+///   Cs  = fl(S / T)                                         =>  S/T - u < Cs <= S/T
+///   rho = fl(Ls / Cs)                                       =>  Ls/Cs - u < rho <= Ls/Cs
+/// hence  rho <= ((L + n_fees u) / T) / (S/T - u)  =: rho_hi   (needs S/T > u, true for every supply >= 1 and
+/// decimals <= 14) and  rho > ((L - u)/T - u) / (S/T) - u =: rho_lo (clamped at 0). Nothing else is assumed about
+/// the order or direction of the individual roundings.
+fn lending_rate_enclosure(l: &Q, supply: u64, decimals: u32, n_fees: u32) -> Option<VenueRate> {
+    if supply == 0 {
+        // the program applies no adjustment when the scaled collateral supply is zero
+        return Some(VenueRate { rate: q_one(), rho_lo: q_one(), rho_hi: q_one() });
+    }
+    if l.is_negative() {
+        return None;
+    }
+    let u = ulp();
+    let t = pow10(decimals);
+    let s_t = q_int(supply) / &t;
+    if s_t <= u {
+        return None;
+    }
+    let rate = l / q_int(supply);
+    let rho_hi = ((l + q_int(n_fees) * &u) / &t) / (&s_t - &u);
+    let rho_lo = q_max(q_zero(), ((l - &u) / &t - &u) / &s_t - &u);
+    Some(VenueRate { rate, rho_lo, rho_hi })
+}
+
+/// Freshness + exchange rate of the venue account of a venue bank (`oracle_keys[1]`), from raw bytes.
+/// Err("venue-stale") when it was not refreshed in the current slot (Kamino / Solend) / second (Drift).
+pub fn venue_rate(vm: &Vm, bank: &Bank, now: i64) -> Result<VenueRate, &'static str> {
+    venue_rate_at(vm, bank, now, vm.clock.slot)
+}
+/// same, freshness judged against an explicit slot (slot 0 / time 0 = never stale: the rate alone)
+pub fn venue_rate_at(vm: &Vm, bank: &Bank, now: i64, slot: u64) -> Result<VenueRate, &'static str> {
+    use crate::{venue_drift as vd, venue_kamino as vk, venue_solend as vs};
+    let venue_key = bank.config.oracle_keys[1];
+    let Some(va) = vm.get(&venue_key) else { return Err("venue-account-missing") };
+    match bank.config.oracle_setup {
+        OracleSetup::KaminoPythPush | OracleSetup::KaminoSwitchboardPull => {
+            let Some(r) = vk::read_reserve(vm, &venue_key) else { return Err("venue-account") };
+            if r.slot < slot {
+                return Err("venue-stale");
+            }
+            let sf = |b: [u8; 16]| Q::new(num_bigint::BigInt::from(u128::from_le_bytes(b)), num_bigint::BigInt::from(1u8) << 60);
+            let l = q_int(r.available_amount) + sf(r.borrowed_amount_sf) - sf(r.accumulated_protocol_fees_sf) - sf(r.accumulated_referrer_fees_sf) - sf(r.pending_referrer_fees_sf);
+            lending_rate_enclosure(&l, r.mint_total_supply, r.mint_decimals as u32, 3).ok_or("venue-rate")
+        }
+        OracleSetup::SolendPythPull | OracleSetup::SolendSwitchboardPull => {
+            if va.owner != vs::program_id() || va.data.len() != solend_mocks::state::RESERVE_LEN || va.data[0] != 1 {
+                return Err("venue-account");
+            }
+            let r: solend_mocks::state::SolendMinimalReserve = bytemuck::pod_read_unaligned(&va.data[1..]);
+            if { r.last_update_slot } < slot {
+                return Err("venue-stale");
+            }
+            let wad = |b: [u8; 16]| Q::new(num_bigint::BigInt::from(u128::from_le_bytes(b)), num_bigint::BigInt::from(10u8).pow(18));
+            let l = q_int({ r.liquidity_available_amount }) + wad(r.liquidity_borrowed_amount_wads) - wad(r.liquidity_accumulated_protocol_fees_wads);
+            lending_rate_enclosure(&l, { r.collateral_mint_total_supply }, r.liquidity_mint_decimals as u32, 1).ok_or("venue-rate")
+        }
+        OracleSetup::DriftPythPull | OracleSetup::DriftSwitchboardPull => {
+            if va.owner != vd::program_id() || va.data.len() != vd::SM_LEN || va.data[..8] != vd::SPOT_MARKET_DISC {
+                return Err("venue-account");
+            }
+            let ts = u64::from_le_bytes(va.data[vd::SM_LAST_INTEREST_TS..vd::SM_LAST_INTEREST_TS + 8].try_into().unwrap());
+            if (ts as i64) < now {
+                return Err("venue-stale");
+            }
+            let ci = u128::from_le_bytes(va.data[vd::SM_CUM_DEPOSIT_INTEREST..vd::SM_CUM_DEPOSIT_INTEREST + 16].try_into().unwrap());
+            // one 9-decimal scaled-balance unit is worth ci / 10^(19 - dec) native tokens; per whole unit (10^9 scaled
+            // units vs 10^dec native units) the price is scaled by ci / 10^10 - in integer arithmetic, so the
+            // program's rate IS the exact rate
+            let rate = Q::new(num_bigint::BigInt::from(ci), num_bigint::BigInt::from(10u8).pow(10));
+            Ok(VenueRate { rate: rate.clone(), rho_lo: rate.clone(), rho_hi: rate })
+        }
+        _ => Err("not-a-venue-bank"),
+    }
+}
+
+/// Venue banks (Kamino / Solend / Drift x Pyth / Switchboard): the feed's view as for PythPushOracle /
+/// SwitchboardPull, scaled by the exact venue rate; unusable("venue-stale") when the venue account was not refreshed
+/// in the current slot (Kamino / Solend: `slot < clock.slot`) / second (Drift: `last_interest_ts < now`).
+///
+/// Slack derivation. The program multiplies the feed's INTEGER mantissas m (price, EMA price; Pyth: 10^expo units,
+/// Switchboard: 10^-18 units) and c (confidences) by its own rate rho and truncates to an integer:
+///   m' = floor(m * rho),  rho in [rho_lo, rho_hi]   =>   m * rho_lo - 1 < m' <= m * rho_hi      (m >= 0)
+/// (Drift: rho = cumulative_deposit_interest / 10^10 exactly, integer arithmetic, so rho_lo = rho_hi = rate.)
+/// Against the reference value m * rate the program's adjusted mantissa is therefore off by at most
+///   d(m) = max( m * (rho_hi - rate), m * (rate - rho_lo) + 1 )     mantissa units,
+/// and likewise d(c) for the confidence. The biased price is P -+ min(k sigma, 0.05 P); `min` is 1-Lipschitz in each
+/// argument, so its error is at most max(k d(c), 0.05 d(m)) and the biased price is off by at most
+///   (1.05 d(m) + k d(c)) * unit.
+/// That is `extra_slack` (with m, c the larger of the spot and EMA mantissas): one or two units of the feed's
+/// last digit plus ~10^decimals 2^-48 / S relative - seven to fifteen orders of magnitude below a swapped bias
+/// (2 x confidence) or a rate applied the wrong way round (rate^2).
+fn venue_view(vm: &Vm, bank: &Bank, now: i64, max_conf_frac: Q) -> OracleView {
+    let setup = bank.config.oracle_setup;
+    // --- the venue account: freshness and exchange rate
+    let vr = match venue_rate(vm, bank, now) {
+        Ok(v) => v,
+        Err(why) => return OracleView::unusable(why),
+    };
+    // --- the price feed: raw integer mantissas (price, conf, ema price, ema conf), the unit of one mantissa step, k
+    let key = bank.config.oracle_keys[0];
+    let Some(a) = vm.get(&key) else { return OracleView::unusable("missing") };
+    let pyth = matches!(setup, OracleSetup::KaminoPythPush | OracleSetup::SolendPythPull | OracleSetup::DriftPythPull);
+    let (m_spot, c_spot, m_ema, c_ema, unit, k): (Q, Q, Q, Q, Q, Q) = if pyth {
+        use anchor_lang::{AnchorDeserialize, Discriminator};
+        use pyth_solana_receiver_sdk::price_update::{PriceUpdateV2, VerificationLevel};
+        if a.owner != pyth_solana_receiver_sdk::ID {
+            return OracleView::unusable("owner");
+        }
+        if a.data.len() < 8 || a.data[..8] != *PriceUpdateV2::DISCRIMINATOR {
+            return OracleView::unusable("discriminator");
+        }
+        let Ok(p) = PriceUpdateV2::deserialize(&mut &a.data[8..]) else { return OracleView::unusable("layout") };
+        if p.verification_level != VerificationLevel::Full {
+            return OracleView::unusable("verification");
+        }
+        let max_age: i64 = if bank.config.oracle_max_age == 0 { 60 } else { bank.config.oracle_max_age as i64 };
+        let m = p.price_message;
+        if m.publish_time.saturating_add(max_age) < now {
+            return OracleView::unusable("stale");
+        }
+        (q_int(m.price), q_int(m.conf), q_int(m.ema_price), q_int(m.ema_conf), pow10_signed(m.exponent), q_ratio(212, 100))
+    } else {
+        use switchboard_on_demand::{Discriminator as D, PullFeedAccountData};
+        if a.owner != marginfi::constants::SWITCHBOARD_PULL_ID {
+            return OracleView::unusable("owner");
+        }
+        let sz = std::mem::size_of::<PullFeedAccountData>();
+        if a.data.len() < 8 + sz || a.data[..8] != <PullFeedAccountData as D>::DISCRIMINATOR[..] {
+            return OracleView::unusable("discriminator");
+        }
+        let feed: PullFeedAccountData = bytemuck::pod_read_unaligned(&a.data[8..8 + sz]);
+        if now.saturating_sub(feed.last_update_timestamp) > bank.config.oracle_max_age as i64 {
+            return OracleView::unusable("stale");
+        }
+        (q_int(feed.result.value), q_int(feed.result.std_dev), q_int(feed.result.value), q_int(feed.result.std_dev), Q::one() / pow10(18), q_ratio(196, 100))
+    };
+    if !m_spot.is_positive() || !m_ema.is_positive() || c_spot.is_negative() || c_ema.is_negative() {
+        // Drift's adapter refuses negative inputs; the lending adapters would carry a sign through, which no
+        // caller of the reference generates
+        return OracleView::unusable("venue-nonpositive-price");
+    }
+    let d = |m: &Q| -> Q { q_max(m * (&vr.rho_hi - &vr.rate), m * (&vr.rate - &vr.rho_lo) + q_one()) };
+    let m_big = q_max(m_spot.clone(), m_ema.clone());
+    let c_big = q_max(c_spot.clone(), c_ema.clone());
+    let extra_slack = (q_ratio(105, 100) * d(&m_big) + &k * d(&c_big)) * &unit;
+    let sc = &vr.rate * &unit;
+    OracleView { loaded: true, why: "venue", spot: m_spot * &sc, spot_sigma: c_spot * &sc, ema: m_ema * &sc, ema_sigma: c_ema * &sc, k, max_conf_frac, extra_slack }
 }
 
 #[derive(Clone, Debug)]
